@@ -97,11 +97,16 @@ func (s *sockSim) Recvfrom(fd int, p []byte, flags int) (int, syscall.Sockaddr, 
 		return 0, nil, syscall.EAGAIN
 	}
 	a := s.recvQ[0]
-	s.recvQ = s.recvQ[1:]
+	if flags&syscall.MSG_PEEK == 0 {
+		s.recvQ = s.recvQ[1:] // MSG_PEEK leaves the datagram (or the pending error) in the queue
+	}
 	if a.err != nil {
 		return 0, nil, a.err
 	}
 	n := copy(p, a.b)
+	if flags&syscall.MSG_TRUNC != 0 {
+		n = len(a.b) // MSG_TRUNC: the real length of the datagram, even if it did not fit
+	}
 	return n, a.from, nil
 }
 func (s *sockSim) Close(fd int) error {
@@ -539,6 +544,8 @@ func (s *shortNetlink) Receive(nb bool, p libaudit.NetlinkParser) ([]syscall.Net
 	return p(s.b)
 }
 
+var ptypes = []uint16{0, 1, 2, 3, 4, 5, 16, 999, 1000, 1001, 1013, 1100, 1300, 1320, 2000, 65535}
+
 func checkParser(r reporter) (evals, nontrivial int64) {
 	for n := 0; n <= 64; n++ {
 		// header length words around the datagram length: the audit parser must ignore nlmsg_len
@@ -549,13 +556,22 @@ func checkParser(r reporter) (evals, nontrivial int64) {
 			}
 		}
 		lens = append(lens, 0, 16, 17, 1<<31-1, 1<<31, 1<<32-1, int64(n)-16, int64(n)+16)
-		for pat := 0; pat < len(lens)+1; pat++ {
+		npat := len(lens) + 1
+		if npat < 2*len(ptypes) {
+			npat = 2 * len(ptypes)
+		}
+		for pat := 0; pat < npat; pat++ {
 			b := make([]byte, n, n) // cap == len: an over-read would fault or show up as foreign bytes
 			for i := range b {
 				b[i] = byte(i*3 + 1 + (pat%2)*0x80)
 			}
 			if pat < len(lens) && lens[pat] >= 0 && n >= 4 {
 				binary.LittleEndian.PutUint32(b, uint32(lens[pat]))
+			}
+			if n >= 6 && pat < len(ptypes)*2 {
+				// the netlink control types (NOOP, ERROR, DONE, OVERRUN) and audit types, with every payload length:
+				// the parser splits header from payload, it does not interpret either
+				binary.LittleEndian.PutUint16(b[4:], ptypes[pat/2])
 			}
 			// every third case: the buffer ends / starts on a page boundary next to an inaccessible page
 			if parserRegion == nil {
